@@ -1,4 +1,4 @@
-"""C10 -- a composite change is all-or-nothing (structural clauses R10.1-R10.10)."""
+"""C10 -- a composite change is all-or-nothing (structural clauses R10.1-R10.11)."""
 from __future__ import annotations
 
 import ast
@@ -239,6 +239,21 @@ def check(ctx, res) -> None:
                     "a path leaves the rollback handler without raising: the failure is swallowed",
                     function=f.qualname)
             _breadth_rule(idx, res, name, f, h, raised)
+            # R10.11 the compensating call is the INVERSE of the call being rolled back (do <-> undo)
+            INV = {"do": "undo", "undo": "do"}
+            body_calls = {c.func.attr for c in calls_in(loop) if isinstance(c.func, ast.Attribute) and c.func.attr in INV
+                          and not (isinstance(c.func.value, ast.Name) and c.func.value.id == "self")}
+            comp_calls = {c.func.attr for c in calls_in(hloop) if isinstance(c.func, ast.Attribute) and c.func.attr in INV
+                          and not (isinstance(c.func.value, ast.Name) and c.func.value.id == "self")}
+            if len(body_calls) == 1 and comp_calls:
+                fwd = next(iter(body_calls))
+                ok11 = comp_calls == {INV[fwd]}
+                res.add("R10.11", name, ok11, f"{f.unit.rel}:{hloop.lineno}",
+                        f"sub-changes that were {fwd}ne are rolled back with {INV[fwd]}()" if ok11 else
+                        f"the rollback handler calls {sorted(comp_calls)} on the sub-changes that the body has just {fwd}ne -- the inverse is {INV[fwd]}(): "
+                        "a failed composite change applies its completed sub-changes a second time instead of reverting them", function=f.qualname)
+            else:
+                res.undecided("R10.11", name, f"{f.unit.rel}:{hloop.lineno}", f"fallible/compensating calls not recognised ({sorted(body_calls)}, {sorted(comp_calls)})")
             # R10.7 the compensating calls must not be interruptible by the task whose stop may be the failure
             # being rolled back: they must not receive the enclosing method's job-set parameter.
             fparams = {a.arg for a in f.node.args.args[1:]} | {a.arg for a in f.node.args.kwonlyargs}
